@@ -276,11 +276,13 @@ func (this *DatasetManager) processSnapshot(data []byte) error {
 		return err
 	}
 
+	inSnapshot := make(map[uuid.UUID]struct{})
 	for _, dataset := range dmSnapshot.Datasets {
 		id, err := uuid.FromBytes(dataset.GetId())
 		if err != nil {
 			return err
 		}
+		inSnapshot[id] = struct{}{}
 		if _, exists := this.datasets[id]; !exists {
 			this.datasets[id], err = newDataset(id, *dataset, this.raftWalDB, this.raftTransport, this.clusterConn, this)
 			if err != nil {
@@ -289,6 +291,16 @@ func (this *DatasetManager) processSnapshot(data []byte) error {
 			for _, partition := range this.datasets[id].partitions {
 				this.allocator.watch(partition)
 			}
+		}
+	}
+
+	// A dataset that is not in the snapshot was deleted by an entry this node never applied
+	for id, dataset := range this.datasets {
+		if _, exists := inSnapshot[id]; !exists {
+			for _, partition := range dataset.partitions {
+				this.allocator.unwatch(partition.id)
+			}
+			delete(this.datasets, id)
 		}
 	}
 	return nil
